@@ -33,6 +33,9 @@ def run(tier, seed):
     out["coverage"]["transitions"] += dc["transitions"]
     out["coverage"]["desugar_trees_compared"] = dc["compared"]
     out["coverage"]["desugar_not_distributable"] = dc["not_distributable"]
+    out["coverage"]["desugar_deviating_trees_judged_by_value"] = dc["deviating"]
+    out["coverage"]["desugar_alternative_correct"] = dc["alternative_correct"]
+    out["coverage"]["oracle_laws_model_checked"] = {"laws": dc["laws"], "states": dc["law_states"]}
     out["coverage"]["traces_validated_against_impl"] += dc["compared"]
     return out
 
